@@ -78,6 +78,7 @@ static void c10_skinny(uint64_t idx, vh_rng *r)
     uint64_t q = idx / (2 * E_N);
     unsigned li = (unsigned)(q % span);
     uint32_t L = li < 3 * bb + 17 ? li : HUGE_LENS[li - (3 * bb + 17)];
+    if (li >= 3 * bb + 17 && (q / span) % 2 == 1) L = vh_wrap_len(r, bb, 3 * bb);    /* wraps into the legal range when scaled by 2..32 */
     const vh_cipher *c = &vh_ciphers[bbsel ? CIPH_S128 : CIPH_S64];
     int tweaked = (e == E_SET_TKEY || e == E_CTR_SET_TKEY);
     unsigned maxk = tweaked ? 2 * bb : 3 * bb;
@@ -237,6 +238,8 @@ static void c10_mantis(uint64_t idx, vh_rng *r)
     unsigned si = (unsigned)(q % (41 + NHUGE)), ri = (unsigned)((q / (41 + NHUGE)) % (21 + 4));
     static const uint32_t HR[4] = {0xFFFFFFFFu, 0x80000005u, 0x10006u, 255};
     uint32_t L = si < 41 ? si : HUGE_LENS[si - 41], R = ri < 21 ? ri : HR[ri - 21];
+    if (si >= 41 && (q / ((41 + NHUGE) * 25)) % 2 == 1) L = vh_wrap_len(r, 16, 16);
+    if (ri >= 21 && (q / ((41 + NHUGE) * 25)) % 3 == 1) R = vh_wrap_len(r, 5, 8);
     int legal = (L == 16 && R >= 5 && R <= 8), ret = -1, mode = (int)vh_below(r, 2);
     uint8_t keybytes[64], old[16], in[24], tw[24], o1[24], o2[24], o3[24], exp_[24];
     unsigned avail = legal ? 16 : (L > 40 ? 1 + vh_below(r, 40) : L), be, nbe;
@@ -332,7 +335,7 @@ static void c14_case(uint64_t idx)
         case 1: if (fn == 2) { L = 0; cname = "tweak-len-0"; } else { L = bb; cname = "null-key"; } break;
         case 2: L = fn == 2 ? 0 : bb - 1 - vh_below(&r, 3); cname = fn == 2 ? "tweak-len-0" : "key-too-short"; break;
         case 3: L = (fn == 0 ? 3 * bb : fn == 1 ? 2 * bb : bb) + 1 + vh_below(&r, 3); cname = fn == 2 ? "tweak-too-long" : "key-too-long"; break;
-        case 4: L = big[vh_below(&r, 5)]; cname = fn == 2 ? "tweak-len-huge" : "key-len-huge"; break;
+        case 4: L = vh_below(&r, 2) ? big[vh_below(&r, 5)] : vh_wrap_len(&r, fn == 2 ? 1 : bb, fn == 2 ? bb : 2 * bb); cname = fn == 2 ? "tweak-len-huge" : "key-len-huge"; break;
         default: L = 0; cname = fn == 2 ? "tweak-len-0" : "key-len-0"; break;
         }
         avail = L > 64 ? 1 + vh_below(&r, 64) : L;
@@ -376,7 +379,7 @@ static void c14_case(uint64_t idx)
         case 0: null_obj = 1; cname = "null-object"; break;
         case 1: if (fn) { L = vh_below(&r, 8); cname = "tweak-len-bad"; } else cname = "null-key"; break;
         case 2: { static const uint32_t b2[] = {0, 1, 15, 17, 32, 7, 9}; L = b2[vh_below(&r, 7)]; if (L == (fn ? 8u : 16u)) L++; cname = fn ? "tweak-len-bad" : "key-size-bad"; break; }
-        case 3: L = big[vh_below(&r, 5)]; cname = fn ? "tweak-len-huge" : "key-size-huge"; break;
+        case 3: L = vh_below(&r, 2) ? big[vh_below(&r, 5)] : vh_wrap_len(&r, fn ? 8 : 16, fn ? 8 : 16); cname = fn ? "tweak-len-huge" : "key-size-huge"; break;
         case 4: if (fn) { L = 9 + vh_below(&r, 9); cname = "tweak-len-bad"; } else { R = vh_below(&r, 5); cname = "rounds-low"; } break;
         default: if (fn) { L = 0; cname = "tweak-len-0"; } else { R = vh_below(&r, 2) ? 9 + vh_below(&r, 5) : big[vh_below(&r, 5)]; cname = "rounds-high"; } break;
         }
